@@ -108,3 +108,13 @@ def suffix_triples():
                 continue        # whole-body suffix only (keeps the family small)
             for e in short:
                 yield (2, 2, tuple(sorted([cand[i], cand[j], e])))
+
+
+def long_body_cases():
+    """three variables S,A,B, terminals a,b: one production S -> x y z (every body of length 3) plus at most two short
+    productions (body <= 1) for A and B -- nullable symbols in the middle of a long body (FIRST/FOLLOW scans)"""
+    short = [(h, body) for h in (1, 2) for body in ([()] + [(s,) for s in range(5)])]
+    for body3 in product(range(5), repeat=3):
+        for k in range(0, 3):
+            for sub in combinations(short, k):
+                yield (3, 2, tuple(sorted(((0, body3),) + sub)))
